@@ -12,6 +12,7 @@ mod blockprops;
 mod drip;
 mod duts;
 mod eos;
+mod formats;
 mod graphs;
 mod hdlc;
 mod hdlcprop;
@@ -83,6 +84,7 @@ fn main() {
         "c10" => blockprops::main(&opts, blockprops::Mode::C10),
         "c11" => kernels::main(&opts),
         "c13" => hdlcprop::main(&opts),
+        "c14" => formats::main(&opts),
         "c12" => blockprops::main(&opts, blockprops::Mode::C12),
         other => {
             eprintln!("unknown subcommand {other}");
